@@ -124,7 +124,7 @@ def free_syms(e):
     k = e.get_id()
     r = _sym_cache.get(k)
     if r is not None:
-        return r
+        return r[1]
     out = set()
     seen = set()
     stack = [e]
@@ -144,7 +144,7 @@ def free_syms(e):
     r = frozenset(out)
     if len(_sym_cache) > 200000:
         _sym_cache.clear()
-    _sym_cache[k] = r
+    _sym_cache[k] = (e, r)      # keep the term alive: z3 recycles ast ids of collected terms
     return r
 
 
@@ -293,6 +293,7 @@ class Engine:
         self.solver_checks += 1
         s = z3.Solver()
         s.set('timeout', 2000)
+        s.set('rlimit', 20000000)
         s.add(*relevant(st.pc, cond))
         s.add(cond)
         return s.check() != z3.unsat
@@ -1103,10 +1104,12 @@ class Engine:
         idx = len(s.calls)
         for o in outs:
             s2 = s.fork() if len(outs) > 1 else s
-            for z in o.assume:
-                s2.assume(z)
-            if len(outs) > 1 and not self.feasible(s2, z3.BoolVal(True)):
-                continue
+            if o.assume:
+                a = z3.And(*[z3.BoolVal(z) if isinstance(z, bool) else z for z in o.assume])
+                if not self.feasible(s2, a):
+                    continue
+                for z in o.assume:
+                    s2.assume(z)
             tgt = recv if isinstance(recv, VRef) and isinstance(s2.heap.get(recv.addr), Record) else self.self_ref
             for fname, val in o.sets.items():
                 s2.set_field(tgt, fname, val)
@@ -1444,14 +1447,173 @@ class Engine:
                     out.append((s3, ('raise', rr.exc) if isinstance(rr, Raised) else None))
         return out
 
-    def ex_If(self, stmt, st):
+    # ---- conditions without forking
+    def is_atom(self, e, st):
+        if isinstance(e, ast.Constant):
+            return True
+        if isinstance(e, ast.Name):
+            return True
+        if isinstance(e, ast.Attribute) and isinstance(e.value, ast.Name) and e.value.id == 'self':
+            return True
+        if isinstance(e, (ast.Set, ast.Tuple)) and all(isinstance(x, (ast.Constant, ast.Name)) for x in e.elts):
+            return True
+        return False
+
+    def is_pure_cond(self, e, st):
+        if isinstance(e, ast.BoolOp):
+            return all(self.is_pure_cond(v, st) for v in e.values)
+        if isinstance(e, ast.UnaryOp) and isinstance(e.op, ast.Not):
+            return self.is_pure_cond(e.operand, st)
+        if isinstance(e, ast.Compare):
+            return self.is_atom(e.left, st) and all(self.is_atom(c, st) for c in e.comparators)
+        return self.is_atom(e, st)
+
+    def pure_cond(self, e, st):
+        """z3 Bool for a side-effect-free, non-raising condition (no forking); None if not applicable"""
+        if isinstance(e, ast.BoolOp):
+            parts = [self.pure_cond(v, st) for v in e.values]
+            if any(p is None for p in parts):
+                return None
+            return z3.And(*parts) if isinstance(e.op, ast.And) else z3.Or(*parts)
+        if isinstance(e, ast.UnaryOp) and isinstance(e.op, ast.Not):
+            p = self.pure_cond(e.operand, st)
+            return None if p is None else z3.Not(p)
+        try:
+            n0 = len(st.pc)
+            rs = self.ev(e, st)
+        except Unsupported:
+            return None
+        if len(rs) != 1 or isinstance(rs[0][1], Raised) or rs[0][0] is not st or len(st.pc) != n0:
+            return None
+        return self.truthy(st, rs[0][1])
+
+    def cond(self, test, st, node):
+        """-> list[(state, bool side | ('raise', exc))]"""
+        if self.is_pure_cond(test, st):
+            try:
+                c = self.pure_cond(test, st)
+            except Unsupported:
+                c = None
+            if c is not None:
+                return [(s2, side) for s2, side in self.branch(st, c, node)]
         out = []
-        for s, c in self.ev(stmt.test, st):
+        for s, c in self.ev(test, st):
             if isinstance(c, Raised):
                 out.append((s, ('raise', c.exc)))
                 continue
-            for s2, side in self.branch(s, self.truthy(s, c), stmt):
-                out.extend(self.ex_block(stmt.body if side else stmt.orelse, s2))
+            out.extend(self.branch(s, self.truthy(s, c), node))
+        return out
+
+    # ---- merging of simple if/else (assignments only) into ite values
+    def simple_block(self, stmts):
+        for st_ in stmts:
+            if isinstance(st_, ast.Pass):
+                continue
+            if not isinstance(st_, (ast.Assign, ast.AugAssign)):
+                return False
+            tgts = st_.targets if isinstance(st_, ast.Assign) else [st_.target]
+            for t in tgts:
+                if isinstance(t, ast.Name):
+                    continue
+                if isinstance(t, ast.Attribute) and isinstance(t.value, ast.Name) and t.value.id == 'self':
+                    continue
+                return False
+            for n in ast.walk(st_.value):
+                if isinstance(n, (ast.Call, ast.Await, ast.Lambda, ast.ListComp, ast.Subscript)):
+                    return False
+        return True
+
+    def merge_values(self, c, a, b):
+        if a is b:
+            return a
+        if isinstance(a, VInt) and isinstance(b, VInt):
+            return VInt(z3.If(c, a.z, b.z))
+        if isinstance(a, VBool) and isinstance(b, VBool):
+            return VBool(z3.If(c, a.z, b.z))
+        if isinstance(a, VBool) and isinstance(b, VInt) or isinstance(a, VInt) and isinstance(b, VBool):
+            return None
+        if isinstance(a, VBytes) and isinstance(b, VBytes) and a.mutable == b.mutable:
+            return VBytes(z3.If(c, a.z, b.z), mutable=a.mutable)
+        if isinstance(a, VStr) and isinstance(b, VStr):
+            return VStr(z3.If(c, a.z, b.z))
+        if isinstance(a, VTag) and isinstance(b, VTag) and a.tag == b.tag:
+            return a
+        if isinstance(a, VRef) and isinstance(b, VRef) and a.addr == b.addr:
+            return a
+        return None
+
+    def try_merge_if(self, stmt, st, c):
+        if not (self.simple_block(stmt.body) and self.simple_block(stmt.orelse)):
+            return None
+        if concrete_bool(c) is not None:
+            return None
+        nob = len(self.obligations)
+        s1, s2 = st.fork(), st.fork()
+        n0 = len(st.pc)
+        s1.assume(c)
+        s2.assume(z3.Not(c))
+        try:
+            r1 = self.ex_block(stmt.body, s1)
+            r2 = self.ex_block(stmt.orelse, s2)
+        except Unsupported:
+            del self.obligations[nob:]
+            return None
+        if len(r1) != 1 or len(r2) != 1 or r1[0][1] is not None or r2[0][1] is not None \
+                or len(self.obligations) != nob:
+            del self.obligations[nob:]
+            return None
+        s1, s2 = r1[0][0], r2[0][0]
+        m = st.fork()
+        for name in set(s1.env) | set(s2.env):
+            a, b = s1.env.get(name), s2.env.get(name)
+            if a is None or b is None:
+                return None
+            v = self.merge_values(c, a, b)
+            if v is None:
+                return None
+            m.env[name] = v
+        for addr in set(s1.heap) | set(s2.heap):
+            a, b = s1.heap.get(addr), s2.heap.get(addr)
+            if a is b:
+                continue
+            if isinstance(a, Record) and isinstance(b, Record) and a.cls == b.cls \
+                    and set(a.fields) == set(b.fields):
+                r = a.copy()
+                for f in a.fields:
+                    v = self.merge_values(c, a.fields[f], b.fields[f])
+                    if v is None:
+                        return None
+                    r.fields[f] = v
+                m.heap[addr] = r
+            elif isinstance(addr, str) and addr.startswith('__') and isinstance(a, tuple) and isinstance(b, tuple):
+                m.heap[addr] = tuple(a) + tuple(x for x in b if x not in a)
+            else:
+                return None
+        if s1.calls != st.calls or s2.calls != st.calls or s1.events != st.events or s2.events != st.events:
+            return None
+        for z in s1.pc[n0 + 1:]:
+            m.assume(z3.Implies(c, z))
+        for z in s2.pc[n0 + 1:]:
+            m.assume(z3.Implies(z3.Not(c), z))
+        m.next_addr = max(s1.next_addr, s2.next_addr)
+        return m
+
+    def ex_If(self, stmt, st):
+        out = []
+        if self.is_pure_cond(stmt.test, st) and self.simple_block(stmt.body) and self.simple_block(stmt.orelse):
+            try:
+                c = self.pure_cond(stmt.test, st)
+            except Unsupported:
+                c = None
+            if c is not None:
+                m = self.try_merge_if(stmt, st, c)
+                if m is not None:
+                    return [(m, None)]
+        for s2, side in self.cond(stmt.test, st, stmt):
+            if isinstance(side, tuple):
+                out.append((s2, side))
+                continue
+            out.extend(self.ex_block(stmt.body if side else stmt.orelse, s2))
         return out
 
     def ex_Raise(self, stmt, st):
@@ -1658,6 +1820,7 @@ class Engine:
         return names, fields, calls
 
     def havoc(self, s, node, lspec):
+        s.heap['__cut__'] = True     # paths through a cut loop are not straight-line replayable
         names, fields, calls = self.loop_targets(node)
         for key in calls:
             meth = key.rsplit('.', 1)[-1]
